@@ -684,6 +684,8 @@ def run(check):
         'translator harness/translate/tokens.py (decisive tokens - constants, operators, called methods, except clauses - of the '
         'modelled *_to_unicode / *_from_unicode / ByteArray codec functions -> Gen/Tokens.v, pinned by the Examples of '
         'coq/C08/Pins.v to what the hand-written models transcribe)',
+        'translator harness/translate/c08sem.py (symbolic execution of datetime_from_unicode_iso and duration_to_unicode over the '
+        'vocabulary of the models -> Gen/C08Sem.v, proved equal to the models in coq/C08/SemTie.v; as_timezone is None by assumption)',
         'translator harness/translate/regexes.py (Python\'s own parse, re._parser.parse, of the date/time/duration/uuid pattern strings '
         'the imported modules compute -> regex ASTs in Gen/Regexes.v; fail closed outside the fragment)',
         'the generic backtracking matcher coq/C08/Regex.v is faithful to Python\'s re on the translated fragment: TRUSTED, sampled on '
@@ -697,7 +699,7 @@ def run(check):
                          'str_format/format customisations are opaque (default formats only); Uuid: default serialize_as only; Decimal: default decimal context (capitals=1)',
                          'Decimal values are within the maximal decimal context (dec_in_limits), as every decimal.Decimal object is',
                          'strptime(s, \'%Y-%m-%d\') inside date_from_unicode is CPython\'s own pattern: modelled by the hand-written scan_month / scan_day of DtModel.v (tied by correspondence), not translated']
-    check.regen(['numtypes', 'tokens', 'regexes'])
+    check.regen(['numtypes', 'tokens', 'regexes', 'c08sem'])
     check.check_sources()
     check.prove('Props.C08', THEOREMS)
     check.prove('Props.C08_int', ['C08_bounded_plus_sign'])
@@ -706,6 +708,7 @@ def run(check):
     check.prove('Props.C08_bin', THEOREMS_BIN)
     check.prove('Props.C08_re', THEOREMS_RE)
     check.prove('Props.C08_dec', THEOREMS_DEC)
+    check.prove('Props.C08_sem', ['C08_sem_datetime_reader', 'C08_sem_duration_printer'])
     check.prove('Props.C08_uuid', THEOREMS_UUID)
     # decisive tokens of the modelled codec functions, regenerated from the source on every run
     # (Gen/Tokens.v), pinned to what the models transcribe (C08/Pins.v)
